@@ -28,7 +28,7 @@ DECIDING_COUNTERS = ["rings_checked", "idempotence_checked", "immutability_check
 
 def shards(tier, seed):
     subs = A.pick_subtypes(tier, seed, n_quick=3)
-    n = 50 if tier == "quick" else 700
+    n = 80 if tier == "quick" else 900
     out = []
     for kind in ("polygon", "multipolygon"):
         for b in ("J", "B"):
